@@ -13,7 +13,10 @@
 (*    loop, no client-done), which is also what the client falls back to   *)
 (*    when ReadSchema never assigned a version (atpVersion = 0);           *)
 (*  - the handshake of the SDK server (sendInitialMessagesToClient) against*)
-(*    an arbitrary client.                                                 *)
+(*    an arbitrary client, and the hand-over of the input stream to the    *)
+(*    read loop: the decoder reads ahead, so whatever the client wrote     *)
+(*    right behind its start message is already in the decoder's buffer    *)
+(*    when the handshake ends.                                             *)
 (*                                                                         *)
 (* Grain: one action per blocking I/O call or mutex acquisition of         *)
 (* atp/client.go (ReadSchema, Execute, getResultV1) and atp/server.go      *)
@@ -30,7 +33,9 @@ CONSTANTS Calls,       \* identifiers of the Execute calls issued with the legac
           Peer,        \* "env": any stream;  "v1": a faithful v1 plugin
           LockFirst,   \* TRUE (current code): a v1 call takes the v1 mutex BEFORE its work-start and keeps it up to
                        \* its work-done; FALSE (named deviation, the pinned tree after c6b9c8b): only the read is locked
-          Describable  \* server side: can the plugin schema describe itself (SelfSerialize)
+          Describable, \* server side: can the plugin schema describe itself (SelfSerialize)
+          OneDecoder   \* TRUE (current code): handshake and read loop of the server decode from ONE decoder;
+                       \* FALSE (named deviation): the handshake has a decoder of its own, whose read-ahead is lost
 
 Supported == {1, 3}            \* supportedServerVersions in atp/client.go
 Versions  == {0, 1, 2, 3, 4, 99}     \* 2 lies between the supported ones, 0 and 4 beside them
@@ -52,10 +57,13 @@ VARIABLES
   srv,       \* SDK server handshake: "selfser", "start", "hello", "loop", "fail", "failed"
   serr,      \* number of ServerErrors reported by the server handshake
   cliEnded,  \* server side: the client's stream has ended
-  outFail    \* server side: the server's writes fail
+  outFail,   \* server side: the server's writes fail
+  sbuf,      \* server side: items the server's decoder has read from c2s and not yet decoded (read-ahead)
+  seen,      \* server side: the items the read loop has decoded, in order
+  sent       \* server side, history: every item the client has written, in order
 
 cvars == <<hs, hsAt, hello, ver, cpc, res, got, rmu, c2s, s2c, outEnded, inClosed, helloSent, intact>>
-svars == <<srv, serr, cliEnded, outFail>>
+svars == <<srv, serr, cliEnded, outFail, sbuf, seen, sent>>
 vars  == <<cvars, svars>>
 
 NoHello == [t |-> "none", ver |-> 0, sch |-> "bad"]
@@ -74,6 +82,9 @@ Whole(q) == q # <<>> /\ Head(q).t \notin {"junk", "part"}
 CanDecode(q, ended) == Whole(q) \/ Malformed(q) \/ Cut(q, ended)
 
 (* no garbage or torso before the end of the queue: what is appended now can still be read *)
+WholeOnly(q) == SelectSeq(q, LAMBDA m : m.t \notin {"junk", "part"})
+IsPrefixOf(p, q) == Len(p) <= Len(q) /\ p = SubSeq(q, 1, Len(p))
+MaxSent == 4
 Clean(q) == \A i \in 1..Len(q) : q[i].t \notin {"junk", "part"}
 
 -----------------------------------------------------------------------------
@@ -193,6 +204,7 @@ CInit ==
   /\ rmu = "" /\ c2s = <<>> /\ s2c = <<>> /\ outEnded = "" /\ inClosed = FALSE
   /\ helloSent = FALSE /\ intact = {}
   /\ srv = "n/a" /\ serr = 0 /\ cliEnded = FALSE /\ outFail = FALSE
+  /\ sbuf = <<>> /\ seen = <<>> /\ sent = <<>>
 
 CNext == ClientNext \/ EnvNext
 CSpec == CInit /\ [][CNext]_vars
@@ -245,44 +257,70 @@ EndedImpliesReturns == (outEnded # "") ~> (hs # "wrote" /\ \A c \in Calls : cpc[
 SrvSelfSer ==
   /\ srv = "selfser"
   /\ srv' = IF Describable THEN "start" ELSE "fail"
-  /\ UNCHANGED <<cvars, serr, cliEnded, outFail>>
+  /\ UNCHANGED <<cvars, serr, cliEnded, outFail, sbuf, seen, sent>>
+
+InEnded == cliEnded /\ c2s = <<>>
+
+(* A Decode call that finds no whole item in the decoder's buffer reads from the stream: the Read returns whatever
+   has arrived, one item or several (a client may write its first work-start together with the start message). *)
+SrvFill ==
+  /\ srv \in {"start", "loop"}
+  /\ ~Whole(sbuf) /\ ~Malformed(sbuf)
+  /\ c2s # <<>>
+  /\ \E k \in 1..Len(c2s) : sbuf' = sbuf \o SubSeq(c2s, 1, k) /\ c2s' = SubSeq(c2s, k + 1, Len(c2s))
+  /\ UNCHANGED <<hs, hsAt, hello, ver, cpc, res, got, rmu, s2c, outEnded, inClosed, helloSent, intact,
+                 srv, serr, cliEnded, outFail, seen, sent>>
 
 (* s.cborStdin.Decode(&empty): any well-formed item is taken for the start message *)
 SrvReadStart ==
   /\ srv = "start"
-  /\ CanDecode(c2s, cliEnded)
-  /\ IF Whole(c2s) THEN c2s' = Tail(c2s) /\ srv' = "hello" ELSE srv' = "fail" /\ UNCHANGED c2s
-  /\ UNCHANGED <<hs, hsAt, hello, ver, cpc, res, got, rmu, s2c, outEnded, inClosed, helloSent, intact, serr, cliEnded, outFail>>
+  /\ CanDecode(sbuf, InEnded)
+  /\ IF Whole(sbuf) THEN sbuf' = Tail(sbuf) /\ srv' = "hello" ELSE srv' = "fail" /\ UNCHANGED sbuf
+  /\ UNCHANGED <<cvars, serr, cliEnded, outFail, seen, sent>>
 
+(* the hello is written and the read loop starts, on the same decoder (OneDecoder) or on a new one *)
 SrvHello ==
   /\ srv = "hello"
-  /\ IF outFail THEN srv' = "fail" /\ UNCHANGED s2c
-                ELSE srv' = "loop" /\ s2c' = Append(s2c, HelloItem(3, "ok"))
-  /\ UNCHANGED <<hs, hsAt, hello, ver, cpc, res, got, rmu, c2s, outEnded, inClosed, helloSent, intact, serr, cliEnded, outFail>>
+  /\ IF outFail THEN srv' = "fail" /\ UNCHANGED <<s2c, sbuf>>
+                ELSE /\ srv' = "loop" /\ s2c' = Append(s2c, HelloItem(3, "ok"))
+                     /\ sbuf' = IF OneDecoder THEN sbuf ELSE <<>>
+  /\ UNCHANGED <<hs, hsAt, hello, ver, cpc, res, got, rmu, c2s, outEnded, inClosed, helloSent, intact,
+                 serr, cliEnded, outFail, seen, sent>>
+
+(* runATPReadLoop: one well-formed item decoded and dispatched.  (What the loop does with it, and how it ends, is
+   ATP.tla's matter: this module follows the stream up to the point where both agree on what the loop is given.) *)
+SrvLoopDecode ==
+  /\ srv = "loop"
+  /\ Whole(sbuf)
+  /\ seen' = Append(seen, Head(sbuf)) /\ sbuf' = Tail(sbuf)
+  /\ UNCHANGED <<cvars, srv, serr, cliEnded, outFail, sent>>
 
 (* run() reports a server-fatal ServerError through workDone and ends; RunATPServer returns it *)
 SrvFail ==
   /\ srv = "fail"
   /\ srv' = "failed" /\ serr' = serr + 1
-  /\ UNCHANGED <<cvars, cliEnded, outFail>>
+  /\ UNCHANGED <<cvars, cliEnded, outFail, sbuf, seen, sent>>
 
-ServerNext == SrvSelfSer \/ SrvReadStart \/ SrvHello \/ SrvFail
+ServerNext == SrvSelfSer \/ SrvFill \/ SrvReadStart \/ SrvHello \/ SrvLoopDecode \/ SrvFail
 
 CliSend(k) ==
-  /\ ~cliEnded /\ Len(c2s) < 2
-  /\ Clean(c2s)                          \* after garbage or a torso nothing further matters
-  /\ c2s' = Append(c2s, k)
-  /\ UNCHANGED <<hs, hsAt, hello, ver, cpc, res, got, rmu, s2c, outEnded, inClosed, helloSent, intact, svars>>
+  /\ ~cliEnded
+  /\ Clean(sent)                         \* after garbage or a torso nothing further matters
+  /\ c2s' = Append(c2s, k) /\ sent' = Append(sent, k)
+  /\ UNCHANGED <<hs, hsAt, hello, ver, cpc, res, got, rmu, s2c, outEnded, inClosed, helloSent, intact,
+                 srv, serr, cliEnded, outFail, sbuf, seen>>
 
 CliEnd ==
   /\ ~cliEnded /\ cliEnded' = TRUE
-  /\ UNCHANGED <<cvars, srv, serr, outFail>>
+  /\ UNCHANGED <<cvars, srv, serr, outFail, sbuf, seen, sent>>
 
 OutFails ==
   /\ ~outFail /\ outFail' = TRUE
-  /\ UNCHANGED <<cvars, srv, serr, cliEnded>>
+  /\ UNCHANGED <<cvars, srv, serr, cliEnded, sbuf, seen, sent>>
 
-SEnvNext == (\E k \in {Start, WS("x"), Junk, Part} : CliSend(k)) \/ CliEnd \/ OutFails
+(* the model's client: at most MaxSent items, at most two of them in flight *)
+SEnvNext == \/ Len(c2s) < 2 /\ Len(sent) < MaxSent /\ \E k \in {Start, WS("x"), WS("y"), Junk, Part} : CliSend(k)
+            \/ CliEnd \/ OutFails
 
 SInit ==
   /\ hs = "n/a" /\ hsAt = "" /\ hello = NoHello /\ ver = 0
@@ -290,12 +328,15 @@ SInit ==
   /\ rmu = "" /\ c2s = <<>> /\ s2c = <<>> /\ outEnded = "" /\ inClosed = FALSE
   /\ helloSent = FALSE /\ intact = {}
   /\ srv = "selfser" /\ serr = 0 /\ cliEnded = FALSE /\ outFail = FALSE
+  /\ sbuf = <<>> /\ seen = <<>> /\ sent = <<>>
 
 SNext == ServerNext \/ SEnvNext
 SSpec == SInit /\ [][SNext]_vars
 SFairSpec == SSpec /\ WF_vars(ServerNext) /\ WF_vars(CliEnd)
 
-STypeOK == srv \in {"selfser", "start", "hello", "loop", "fail", "failed"} /\ serr \in 0..1
+STypeOK == /\ srv \in {"selfser", "start", "hello", "loop", "fail", "failed"} /\ serr \in 0..1
+           /\ \A i \in 1..Len(sent) : i < Len(sent) => sent[i].t \notin {"junk", "part"}
+           /\ Len(seen) <= Len(sent)
 
 (* a failed handshake is reported by exactly one ServerError; a hello is only ever sent after a start message *)
 SrvOneError == (srv = "failed") <=> (serr = 1)
@@ -303,4 +344,13 @@ HelloAfterStart == s2c # <<>> => srv = "loop" /\ s2c = <<HelloItem(3, "ok")>>
 (* the server only ever waits for the client: no terminal state inside the handshake once the input has ended *)
 SrvTotal == (cliEnded /\ ~ENABLED ServerNext) => srv \in {"loop", "failed"}
 SrvEventuallyDecides == <>(srv \in {"loop", "failed"})
+
+(* Nothing the client wrote is swallowed between the handshake and the read loop: the first well-formed item is the
+   start message, and the loop is given every well-formed item behind it, in order - whether it arrived in the
+   same Read as the start message or later.  (TLC exhibits the loss on OneDecoder = FALSE.) *)
+LoopGiven == IF sent = <<>> THEN <<>> ELSE WholeOnly(Tail(sent))
+NothingSwallowed ==
+  /\ IsPrefixOf(seen, LoopGiven)
+  /\ (srv = "loop" /\ c2s = <<>> /\ sbuf = <<>>) => seen = LoopGiven
+LoopSeesAll == <>[](srv = "loop" => seen = LoopGiven)
 =============================================================================
